@@ -585,6 +585,35 @@ func (scanEngine) Generate(rng *rand.Rand, prop string, thorough bool) *Plan {
 	cfg.MaxSeg = []uint32{1024, 2048, 4096, 8192}[rng.Intn(4)]
 	p := &Plan{Property: prop, Engine: "scan", Cfg: cfg}
 	keys := GenKeys(rng, KeyFamily(cfg.Family), cfg.NKeys, cfg.HashSeed)
+	// 1 run in 3: a growing index with two bucket chains - two groups of low-bit colliders (33-62 and 24-40 keys,
+	// so one chain has overflow buckets and the other is at the edge of getting one) plus 10-50 spread keys; about
+	// two thirds are loaded before the scans start and the writers mostly put the rest while the scans are under
+	// way, so that splits of a chained bucket (which free its overflow buckets) and overflow allocations in
+	// another chain (which reuse the freed ones) both happen inside a scan
+	chains := rng.Intn(3) == 0
+	if chains {
+		keys = GenKeys(rng, KFLowBits, 33+rng.Intn(30), cfg.HashSeed)
+		seen := map[string]bool{}
+		for _, k := range keys {
+			seen[string(k)] = true
+		}
+		for _, k := range GenKeys(rng, KFLowBits, 24+rng.Intn(17), cfg.HashSeed) {
+			if !seen[string(k)] {
+				seen[string(k)] = true
+				keys = append(keys, k)
+			}
+		}
+		nr := 10 + rng.Intn(41)
+		for c := 0; nr > 0; c++ {
+			k := []byte("r" + itoa(int(cfg.HashSeed%1000)) + "-" + itoa(c))
+			if !seen[string(k)] {
+				keys = append(keys, k)
+				nr--
+			}
+		}
+		// the groups are spread over the writers' key partitions (splitKeys deals round robin)
+		rng.Shuffle(len(keys), func(i, j int) { keys[i], keys[j] = keys[j], keys[i] })
+	}
 	p.Cfg.NKeys = len(keys)
 	cfg.NKeys = len(keys)
 	p.SetKeys(keys)
@@ -594,13 +623,31 @@ func (scanEngine) Generate(rng *rand.Rand, prop string, thorough bool) *Plan {
 		all[i] = i
 	}
 	sizes := []int{12, 12, 16, 30}
-	p.Epochs = [][]Op{genClient(rng, cfg, rng.Intn(cfg.NKeys*2+1), map[string]int{"put": 70, "del": 15}, all, &id, sizes)}
+	if chains {
+		var pre []Op
+		for _, k := range rng.Perm(cfg.NKeys) {
+			if rng.Intn(100) < 30+rng.Intn(20) {
+				continue
+			}
+			id++
+			pre = append(pre, Op{K: "put", Key: k, ID: id, Size: sizes[rng.Intn(len(sizes))]})
+			if rng.Intn(12) == 0 {
+				pre = append(pre, Op{K: "del", Key: rng.Intn(cfg.NKeys)})
+			}
+		}
+		p.Epochs = [][]Op{pre}
+	} else {
+		p.Epochs = [][]Op{genClient(rng, cfg, rng.Intn(cfg.NKeys*2+1), map[string]int{"put": 70, "del": 15}, all, &id, sizes)}
+	}
 	nw := 1 + rng.Intn(3)
 	parts := splitKeys(cfg.NKeys, nw)
 	for w := 0; w < nw; w++ {
 		ww := map[string]int{"put": 55, "del": 30, "compact": 2}
 		n := 5 + rng.Intn(50)
-		if rng.Intn(3) == 0 {
+		if chains {
+			ww = map[string]int{"put": 85, "del": 10, "compact": 1}
+			n = len(parts[w])/2 + rng.Intn(len(parts[w]))
+		} else if rng.Intn(3) == 0 {
 			// a deleter: removes most of its keys while scans are under way (the key count shrinks under the scan)
 			ww = map[string]int{"put": 8, "del": 90}
 			n = len(parts[w]) + rng.Intn(len(parts[w])+1)
